@@ -94,3 +94,79 @@ Proof.
   rewrite (refactor_mapped m t s M). symmetry. apply refactor_mapped. rewrite <- E. reflexivity.
 Qed.
 Print Assumptions refactor_single.
+
+(* ---------- any map: the result is the code with exactly the maximal mapped subtrees replaced ----------
+   frontier m t lists, in text order, the pieces the walk of RefactoringNormalizer stops at: a mapped subtree
+   (its path, its own code, the replacement) or an unmapped leaf (its text twice).  The code of t is the
+   concatenation of the first components, the refactored text the concatenation of the second ones: every piece that
+   is not a mapped subtree is copied verbatim, every mapped subtree is replaced as a whole (prefix included), and
+   mapped nodes below a mapped node are ignored.  Maximal mapped subtrees are pairwise disjoint by construction. *)
+Record piece := mkPiece { pc_path : list nat; pc_mapped : bool; pc_old : str; pc_new : str }.
+
+Fixpoint frontier (m : rmap) (here : list nat) (t : tree) : list piece :=
+  match m [] with
+  | Some s => [mkPiece here true (get_code t) s]
+  | None =>
+    match t with
+    | Leaf _ v p _ _ => [mkPiece here false (p ++ v) (p ++ v)]
+    | Node _ cs =>
+      (fix go (i : nat) (l : list tree) : list piece :=
+         match l with [] => [] | c :: r => frontier (shift m i) (here ++ [i]) c ++ go (S i) r end) 0 cs
+    end
+  end.
+Fixpoint frontier_children (m : rmap) (here : list nat) (i : nat) (l : list tree) : list piece :=
+  match l with [] => [] | c :: r => frontier (shift m i) (here ++ [i]) c ++ frontier_children m here (S i) r end.
+Lemma frontier_node m here k cs : m [] = None -> frontier m here (Node k cs) = frontier_children m here 0 cs.
+Proof.
+  intros H. simpl. rewrite H. generalize 0. induction cs as [|c r IH]; intros i; simpl; [reflexivity|]. rewrite IH. reflexivity.
+Qed.
+
+Definition olds (l : list piece) : str := concat (map pc_old l).
+Definition news (l : list piece) : str := concat (map pc_new l).
+Lemma olds_app a b : olds (a ++ b) = olds a ++ olds b.
+Proof. unfold olds. rewrite map_app, concat_app. reflexivity. Qed.
+Lemma news_app a b : news (a ++ b) = news a ++ news b.
+Proof. unfold news. rewrite map_app, concat_app. reflexivity. Qed.
+
+Theorem refactor_is_splice : forall t m here,
+  get_code t = olds (frontier m here t) /\ refactor m t = news (frontier m here t).
+Proof.
+  induction t as [k v p l c|k cs IH] using tree_ind'; intros m here.
+  - simpl. destruct (m []) as [s|]; unfold olds, news; simpl; rewrite ?app_nil_r; split; reflexivity.
+  - destruct (m []) as [s|] eqn:M.
+    + rewrite (refactor_mapped m _ s M). simpl. rewrite M. unfold olds, news. simpl. rewrite !app_nil_r. split; reflexivity.
+    + rewrite refactor_node, frontier_node, get_code_node by exact M. unfold codes.
+      generalize 0. induction IH as [|c r Hc _ IHr]; intros i; simpl; [split; reflexivity|].
+      destruct (Hc (shift m i) (here ++ [i])) as [H1 H2]. destruct (IHr (S i)) as [H3 H4].
+      rewrite olds_app, news_app, <- H1, <- H2, <- H3, <- H4. split; reflexivity.
+Qed.
+
+(* what the pieces are: an unmapped leaf, or a mapped subtree none of whose ancestors is mapped *)
+Definition piece_ok (m : rmap) (t : tree) (here : list nat) (pc : piece) : Prop :=
+  exists q n, pc_path pc = here ++ q /\ subtree t q = Some n /\ pc_old pc = get_code n /\
+    (forall q1 q2, q = q1 ++ q2 -> q2 <> [] -> m q1 = None) /\
+    ((pc_mapped pc = true /\ m q = Some (pc_new pc)) \/
+     (pc_mapped pc = false /\ m q = None /\ pc_new pc = pc_old pc /\ match n with Leaf _ _ _ _ _ => True | Node _ _ => False end)).
+
+Theorem frontier_pieces : forall t m here pc, In pc (frontier m here t) -> piece_ok m t here pc.
+Proof.
+  induction t as [k v p l c|k cs IH] using tree_ind'; intros m here pc I.
+  - simpl in I. destruct (m []) as [s|] eqn:M; destruct I as [<-|[]]; exists [], (Leaf k v p l c); rewrite app_nil_r; cbn [pc_path pc_mapped pc_old pc_new];
+      (split; [reflexivity|split; [reflexivity|split; [reflexivity|split; [intros q1 q2 E NE; symmetry in E; apply app_eq_nil in E as [_ E]; contradiction|]]]]).
+    + left. split; [reflexivity|exact M].
+    + right. repeat split; try reflexivity. exact M.
+  - destruct (m []) as [s|] eqn:M.
+    + simpl in I. rewrite M in I. destruct I as [<-|[]]. exists [], (Node k cs). rewrite app_nil_r. cbn [pc_path pc_mapped pc_old pc_new].
+      split; [reflexivity|split; [reflexivity|split; [reflexivity|split; [intros q1 q2 E NE; symmetry in E; apply app_eq_nil in E as [_ E]; contradiction|left; split; [reflexivity|exact M]]]]].
+    + rewrite frontier_node in I by exact M.
+      assert (G: forall l i0, In pc (frontier_children m here i0 l) ->
+                 exists j c, nth_error l j = Some c /\ In pc (frontier (shift m (i0 + j)) (here ++ [i0 + j]) c)).
+      { induction l as [|c r IHr]; intros i0 I0; [destruct I0|]. simpl in I0. apply in_app_or in I0 as [I0|I0].
+        - exists 0, c. rewrite Nat.add_0_r. split; [reflexivity|exact I0].
+        - destruct (IHr (S i0) I0) as (j & c' & N & I1). exists (S j), c'. split; [exact N|]. replace (i0 + S j) with (S i0 + j) by lia. exact I1. }
+      destruct (G cs 0 I) as (j & c & N & I1). simpl in I1.
+      rewrite Forall_forall in IH. destruct (IH c (nth_error_In _ _ N) _ _ _ I1) as (q & n & P1 & P2 & P3 & P4 & P5).
+      exists (j :: q), n. split; [rewrite P1, <- app_assoc; reflexivity|]. split; [simpl; rewrite N; exact P2|]. split; [exact P3|]. split.
+      * intros q1 q2 E NE. destruct q1 as [|j1 q1]; [exact M|]. simpl in E. inversion E; subst j1. apply (P4 q1 q2 H1 NE).
+      * unfold shift in P5. exact P5.
+Qed.
